@@ -412,6 +412,41 @@ bool exec_str_a(Ctx &c, const Op &op) {
         }
         return true;
     }
+    case S_SELF_ALIAS: {
+        // the source text is (part of) the target's own storage: s = s.c_str() + k, s.set(s.c_str() + k, n), s += s.c_str() + k, s = s.view(k, n)
+        StrObj *dst = pick(v, op.a);
+        if (!dst) { c.skipped = true; return true; }
+        size_t sz = dst->model.size();
+        size_t off = resolve_code(op.b, sz); if (off == ST_AUTO_SIZE || off > sz) off = sz ? off % (sz + 1) : 0;
+        size_t len = resolve_code(op.c, sz); if (len == ST_AUTO_SIZE || off + len > sz) len = sz - off;
+        unsigned form = op.d % 5;
+        std::string slice = dst->model.substr(off, len), rest = dst->model.substr(off);
+        std::string cut = rest.substr(0, rest.find('\0'));
+        std::string expect = form == 0 ? cut : form == 2 ? dst->model + cut : slice;
+        const std::string &validated = form == 0 || form == 2 ? cut : slice;
+        bool wf = form == 4 ? true : strict_utf8(validated.data(), validated.size());
+        note_sig(c, op, std::string("form=") + std::to_string(form) + ",dst=" + cl(dst) + ",off=" + (off == 0 ? "0" : off == sz ? "end" : "mid") + ",in=" + cls_letter(validated.size(), 16) + (wf ? "" : ",invalid"));
+        c.budget_bytes = sz * 4 + 16;
+        if (dst->moved_from) c.touched_moved_from = true;
+        probe(c, PR_SELF_REFERENTIAL);
+        as_target(dst); note_mutating(c, dst);
+        ExcKind ex = run_sut(c, op, [&] {
+            ST::string &d = *dst->p();
+            switch (form) {
+            case 0: d = d.c_str() + off; break;
+            case 1: d.set(d.c_str() + off, len); break;
+            case 2: d += d.c_str() + off; break;
+            case 3: d = d.view(off, len); break;
+            default: d.set(d.c_str() + off, len, ST::assume_valid); break;
+            }
+        });
+        if (ex != EX_NONE && ex != EX_BAD_ALLOC && sz >= 16) probe(c, PR_THROW_WITH_HEAP_TARGET);
+        if (settle(c, op, ex, wf ? 0 : bit(EX_UNICODE))) {
+            if (wf) dst->model = expect; else dst->st = M_ADOPT;
+            dst->moved_from = false;
+        }
+        return true;
+    }
     case S_CLEAR: {
         StrObj *dst = pick(v, op.a);
         if (!dst) { c.skipped = true; return true; }
